@@ -17,7 +17,7 @@ RULE = ("seeded history of 0-4 committed operations, then one operation under te
         "grace) executed once crash-free to count its N storage-level seam calls, then re-executed from a restored "
         "copy of the storage with the writing process killed before its k-th seam call (quick: sampled k; thorough: "
         "every k in 1..N); after each crash a fresh process reopens, reads with the independent reader and the "
-        "library, appends, advances the clock 25 h and garbage-collects. One evaluation = one (history, operation, "
+        "library, appends, advances the clock 25 h and garbage-collects; backends local, CAS-S3 and non-CAS S3. One evaluation = one (history, operation, "
         "k). Distinct = SHA-1 of the write/lock/pointer event sequence up to the crash; non-trivial = the crash "
         "landed after the operation's first write and before its last seam call.")
 ASSUMPTIONS = common.BASE_ASSUMPTIONS + [
@@ -62,7 +62,8 @@ def op_under_test(name: str) -> dict:
 
 
 def gen(rng: random.Random, tier: str, idx: int) -> dict:
-    backend = "local" if rng.random() < 0.65 else "s3"
+    r0 = rng.random()
+    backend = "local" if r0 < 0.6 else ("s3" if r0 < 0.9 else "s3poll")
     name = OPS[idx % len(OPS)] if rng.random() < 0.7 else rng.choice(OPS)
     setup: List[dict] = []
     if not name.startswith("create"):
